@@ -78,7 +78,7 @@ def gen_setup(rng, nmax=40, allow_metric=True):
         else:
             p = [float(rng.randint(int(lo[d]), int(hi[d]) + 1)) for d in range(dim)]
         targets.append(p)
-    return {'coords': c.tolist(), 'values': v.tolist(), 'model': model, 'metric': metric, 'mkw': mkw, 'ok_coords_as': rng.choice(['variogram', 'metricspace']) if mkw else 'variogram', 'vkw': vk, 'min_points': minp, 'max_points': maxp,
+    return {'coords': c.tolist(), 'values': v.tolist(), 'model': model, 'metric': metric, 'mkw': mkw, 'coords_dtype': (rng.choice([None, None, 'int64', 'uint16']) if (not mkw and np.all(c == np.round(c)) and c.min() >= 0 and c.max() < 30000) else None), 'ok_coords_as': rng.choice(['variogram', 'metricspace']) if mkw else 'variogram', 'vkw': vk, 'min_points': minp, 'max_points': maxp,
             'targets': targets, 'solver': rng.choice(['inv', 'numpy', 'scipy']), 'sparse': metric == 'euclidean' and rng.random() < 0.4,
             'tags': {'points': kind, 'dim': dim, 'n': n, 'model': model, 'how': how, 'nugget': nugget, 'duplicates': dup}}
 
@@ -99,6 +99,10 @@ def make_ok(setup, V=None, **over):
     V = V or make_variogram(setup)
     kw = dict(min_points=setup['min_points'], max_points=setup['max_points'], mode='exact', solver=setup['solver'], sparse=setup['sparse'])
     kw.update(over)
+    if setup.get('coords_dtype') and not setup.get('mkw') and 'coordinates' not in kw:
+        # observation coordinates handed over as an integer-typed array (raster indices)
+        kw['coordinates'] = np.array(setup['coords'], float).astype(setup['coords_dtype'])
+        kw.setdefault('values', np.asarray(V.values, float).copy() if isinstance(V, Variogram) else np.array(setup['values'], float))
     if setup.get('mkw') and 'coordinates' not in kw and setup.get('ok_coords_as') == 'metricspace':
         # the keyword arguments of the metric travel with the MetricSpace only
         kw['coordinates'] = MetricSpace(np.array(setup['coords'], float), setup['metric'], dist_metric_kwargs=dict(setup['mkw']))
@@ -156,7 +160,8 @@ def brute_force(V, setup, target, coords=None, values=None):
     g0 = np.array(gamma(d[W]))
     b = np.concatenate((g0, [1.0]))
     try:
-        if np.linalg.cond(A) > 1e9:
+        # the explicit inverse (solver='inv') loses about cond^2 * eps, the LU solvers cond * eps
+        if np.linalg.cond(A) > (1e7 if setup.get('solver') == 'inv' else 1e9):
             return None, None, 'illcond'
         lam = np.linalg.solve(A, b)
     except Exception:
@@ -182,6 +187,7 @@ def check_setup(ctx, model, setup, oracle=True, prop='C07'):
         ctx.count(k, v)
     ctx.count('solver', setup['solver'])
     ctx.count('sparse', setup['sparse'])
+    ctx.count('coords_dtype', str(setup.get('coords_dtype')))
     ctx.count('metric', setup['metric'] + (str(setup['mkw']) if setup.get('mkw') else ''))
     try:
         ok, V = make_ok(setup)
